@@ -277,12 +277,16 @@ class SM:
             if bv.crate.types[t["ot"]]["s"] != "bool":
                 continue
             term = bv.trace_op(t["o"])
+            flip = False
+            while term[0] == "unop" and term[1] == "Not":
+                term = term[2]
+                flip = not flip
             if not pred(n, term):
                 continue
             for b in S.succ[n.idx]:
                 labs = [l[2] for l in S.elabel.get((n.idx, b), []) if l[0] == "switch" and l[1] == n.bi]
                 for v in labs:
-                    out.append((n.idx, b, v != 0))
+                    out.append((n.idx, b, (v != 0) != flip))
         return out
 
 
